@@ -1,7 +1,176 @@
-/- stub: overwritten by the builder of this engine -/
-import Driver.Common
-open Lean FV FV.Drv
+/-
+Driver for E6 / the protocol run (C20): replays an observed schedule on the model of Model/IoRun.lean.
 
-def handle (_ : Json) : Except String Json := throw "driver not implemented"
+request
+  {"forecast":[[hkey,[opt…]]…],      hkey = [[sender,recipient|null,type]…] (the history, message level)
+   "done":[hkey…],                   histories the forecaster reports complete
+   "fuzzer":[party…],                fuzzer-controlled parties
+   "types":[[type,[[cp…]…]]…],       the (finite) content language of every message type, as code-unit lists
+   "forbidden":[[type,[cp…]]…],      (type, content) pairs the constraints reject
+   "trace":[ev…]}                    the schedule as observed on the implementation:
+        ["recv",sender,recipient,[cp…]]   one `receive()` call of an external party (any chunking)
+        ["send",sender,recipient|null,type,[cp…]]   the message the fuzzer appended to the history
+        ["extract"]                        parse_next_remote_packet was entered
+        ["silence"]                        the 1 s wait for a further fragment ran out
+        ["unexpected"] ["nomessage"]       the 10 s / 15 s waits ran out
+        ["done"]                           the run ended with a complete interaction
+   opt = [sender,recipient|null,type]
+
+answer
+  {"history":[[sender,recipient|null,type,[cp…],remote]…],"buffer":[[sender,recipient,cp]…],
+   "outbox":[[sender,recipient|null,type,[cp…]]…],"failed":null|"noParse"|…,"finished":b,
+   "rejected":null|[…msg…],"extracting":b,
+   "stuck":null|k}       k = index of the first trace event the model does not enable (then the state is the
+                         one before that event)
+
+The internal events are derived: after "extract" (→ exStart) and after every "recv" while an extraction
+is active, `exStep` is taken as long as it is enabled, then `exFinish` if no type is left.
+A forecast asked for a history that is not in the table is a driver error (never defaulted).
+-/
+import Driver.Common
+import Model.IoRun
+open Lean FV FV.Drv FV.Io
+
+structure Tables where
+  forecast : List (List Opt × List Opt)
+  done : List (List Opt)
+  fuzzer : List String
+  types : List (String × List (List Nat))
+  forbidden : List (String × List Nat)
+
+def optOfJson (j : Json) : Except String Opt := do
+  let a ← j.getArr?
+  let s ← (a[0]?.getD Json.null).getStr?
+  let t ← (a[2]?.getD Json.null).getStr?
+  return ⟨s, optStr (a[1]?.getD Json.null), t⟩
+
+def arrOf (j : Json) (k : String) : Except String (List Json) := do
+  let v ← j.getObjVal? k
+  return (← v.getArr?).toList
+
+def isProperPrefix : List Nat → List Nat → Bool
+  | [], _ :: _ => true
+  | a :: as, b :: bs => a == b && isProperPrefix as bs
+  | _, _ => false
+
+/-- `missing` collects histories whose forecast was asked for but is not in the table -/
+def specOf (T : Tables) : Spec where
+  forecast := fun h => match T.forecast.find? (fun p => p.1 == h.map Msg.opt) with
+    | some p => p.2
+    | none => [⟨"?missing", none, "?missing"⟩]
+  done := fun h => T.done.contains (h.map Msg.opt)
+  fuzzer := fun p => T.fuzzer.contains p
+  complete := fun t w => match T.types.find? (·.1 == t) with
+    | some p => p.2.contains w
+    | none => false
+  cont := fun t w => match T.types.find? (·.1 == t) with
+    | some p => p.2.any (isProperPrefix w)
+    | none => false
+  ok := fun _ m => !(T.forbidden.contains (m.type, m.payload))
+
+def known (T : Tables) (s : State) : Bool :=
+  (T.forecast.find? (fun p => p.1 == s.history.map Msg.opt)).isSome
+
+/-- exStep while enabled, then exFinish if no type is left -/
+def settle (S : Spec) : Nat → State → State
+  | 0, s => s
+  | n + 1, s =>
+    match step S s .exStep with
+    | some s' => settle S n s'
+    | none => match step S s .exFinish with
+      | some s' => s'
+      | none => s
+
+inductive TEv where
+  | recv (s r : String) (d : List Nat)
+  | send (m : Msg)
+  | extract | silence | unexpected | nomessage | done
+
+def tevOf (j : Json) : Except String TEv := do
+  let a ← j.getArr?
+  let tag ← (a[0]?.getD Json.null).getStr?
+  match tag with
+  | "recv" =>
+    return .recv (← (a[1]?.getD Json.null).getStr?) (← (a[2]?.getD Json.null).getStr?) (← natArr (a[3]?.getD Json.null))
+  | "send" =>
+    return .send ⟨← (a[1]?.getD Json.null).getStr?, optStr (a[2]?.getD Json.null), ← (a[3]?.getD Json.null).getStr?,
+                  ← natArr (a[4]?.getD Json.null), false⟩
+  | "extract" => return .extract
+  | "silence" => return .silence
+  | "unexpected" => return .unexpected
+  | "nomessage" => return .nomessage
+  | "done" => return .done
+  | _ => throw s!"bad trace event {tag}"
+
+def runAll (S : Spec) (s : State) (evs : List Event) : Option State := runEvents S s evs
+
+/-- one observed event → model events; `none` = not enabled -/
+def applyT (S : Spec) (s : State) : TEv → Option State
+  | .recv p r d =>
+    match runEvents S s (recvChunk p r d) with
+    | some s' => some (if s'.ex.isSome then settle S (s'.buffer.length + 2) s' else s')
+    | none => none
+  | .send m => step S s (.fuzzerSend m)
+  | .extract =>
+    match step S s .exStart with
+    | some s' => some (settle S (s'.buffer.length + 2) s')
+    | none => none
+  | .silence => step S s .silence
+  | .unexpected => step S s .unexpected
+  | .nomessage => step S s .noMessage
+  | .done => step S s .finishRun
+
+def jMsgFull (m : Msg) : Json :=
+  Json.arr #[Json.str m.sender, jOptStr m.recipient, Json.str m.type, jNats m.payload, Json.bool m.remote]
+
+def jErrIo : Option Io.Err → Json
+  | none => Json.null
+  | some .noParse => "noParse"
+  | some .timeoutFragment => "timeoutFragment"
+  | some .noMessage => "noMessage"
+  | some .unexpectedParty => "unexpectedParty"
+  | some .constraint => "constraint"
+
+def jState (s : State) (stuck : Option Nat) : Json :=
+  Json.mkObj [
+    ("history", Json.arr (s.history.map jMsgFull).toArray),
+    ("buffer", Json.arr (s.buffer.map (fun f => Json.arr #[Json.str f.sender, Json.str f.recipient, Json.num (JsonNumber.fromNat f.data)])).toArray),
+    ("outbox", Json.arr (s.outbox.map (fun o => Json.arr #[Json.str o.1, jOptStr o.2.1, Json.str o.2.2.1, jNats o.2.2.2])).toArray),
+    ("failed", jErrIo s.failed),
+    ("finished", Json.bool s.finished),
+    ("rejected", match s.rejected with | some m => jMsgFull m | none => Json.null),
+    ("extracting", Json.bool s.ex.isSome),
+    ("stuck", match stuck with | some k => Json.num (JsonNumber.fromNat k) | none => Json.null)]
+
+def replay (T : Tables) (S : Spec) : Nat → State → List TEv → Except String (State × Option Nat)
+  | _, s, [] => return (s, none)
+  | k, s, ev :: evs =>
+    if !known T s && live s then throw s!"no forecast given for the history of length {s.history.length}"
+    else match applyT S s ev with
+      | some s' => replay T S (k + 1) s' evs
+      | none => return (s, some k)
+
+def handle (j : Json) : Except String Json := do
+  let fc ← (← arrOf j "forecast").mapM (fun e => do
+    let a ← e.getArr?
+    let k ← (← (a[0]?.getD Json.null).getArr?).toList.mapM optOfJson
+    let v ← (← (a[1]?.getD Json.null).getArr?).toList.mapM optOfJson
+    return (k, v))
+  let dn ← (← arrOf j "done").mapM (fun e => do (← e.getArr?).toList.mapM optOfJson)
+  let fz ← (← arrOf j "fuzzer").mapM (fun e => e.getStr?)
+  let ty ← (← arrOf j "types").mapM (fun e => do
+    let a ← e.getArr?
+    let n ← (a[0]?.getD Json.null).getStr?
+    let ws ← (← (a[1]?.getD Json.null).getArr?).toList.mapM natArr
+    return (n, ws))
+  let fb ← (← arrOf j "forbidden").mapM (fun e => do
+    let a ← e.getArr?
+    return (← (a[0]?.getD Json.null).getStr?, ← natArr (a[1]?.getD Json.null)))
+  let tr ← (← arrOf j "trace").mapM tevOf
+  let T : Tables := ⟨fc, dn, fz, ty, fb⟩
+  let S := specOf T
+  let (s, stuck) ← replay T S 0 init tr
+  if s.history.any (fun m => m.type == "?missing") then throw "a forecast was missing"
+  return jState s stuck
 
 def main : IO Unit := run handle
